@@ -99,9 +99,14 @@ TEXT = {
               COMMON_NOTE + ' Additional rule R20 (string-literal match -> if-chain, arm order kept). NOT covered: concurrent setters/readers (atomics sequentialised), serde_json itself (parsing, typed accessors, serialisation, Response::to_json), Display of SchedulingMode, the subscription handlers, control_socket.rs line framing.',
               'deductive verification (Verus) of the extracted real functions over uninterpreted JSON/string stubs; atomics sequentialised', 'DESIGN.md 8 C18'),
     'C19': _t('Verus proves on the real analyze_ip_reload_text (string functions lines/trim/is_empty/IpAddr::from_str uninterpreted but deterministic): the reload is refused iff no line parses; the applied list is exactly the parsable lines in file order; '
-              'Empty is reported iff there is no non-blank line; the first invalid line number is the first non-blank unparsable line. And on SequenceTracker::remove_connection: exactly the records of the removed link are purged, every other slot is untouched.',
-              COMMON_NOTE + ' Out of reach: apply_connection_changes (async, creates sockets; survivors untouched / handle dropped / previous choice forgotten / each new address once) - not covered, stated.',
-              'deductive verification (Verus) of the extracted real function over uninterpreted string functions', 'DESIGN.md 8 C19'),
+              'Empty is reported iff there is no non-blank line; the first invalid line number is the first non-blank unparsable line. On the real apply_connection_changes (its four iterator chains turned into cursor loops by rules R19a-d, closure texts verbatim; '
+              'label format! = an uninterpreted function of host, port and address; HashSet<String>/HashSet<IpAddr> = ghost sets): the surviving links are exactly the links whose label is still listed, unchanged and in their old order, at the front of the list; '
+              'the purge list is exactly the conn_ids of the unlisted links; their I/O handles are removed and their NAK-attribution records blanked, and nothing else is purged (survivors keep their I/O handle and records); '
+              'the sticky routing choice is forgotten exactly when a link was removed; every appended link is for a listed address that had no link, and no address is used twice. On the real create_connections_from_ips / connect_uplink (socket calls stubbed): '
+              'links are created in list order, each with the label reloads match on, and existing I/O entries are untouched. On SequenceTracker::remove_connection: exactly the records of the removed link are purged.',
+              COMMON_NOTE + ' Residual, stated in the contract rather than assumed away: connect_uplink draws a random 64-bit conn_id without a collision check, so the "untouched" clauses hold unless a new link drew the id of an existing one. '
+              'NOT covered: sync_readers (reader tasks follow the link list), socket identity of survivors (ConnIo is opaque), "applied while packets are in flight" (single call only).',
+              'deductive verification (Verus) of the extracted real functions over uninterpreted string / set / socket stubs', 'DESIGN.md 8 C19'),
     'C16': _t('Kani proves on the real LinkCongestionState (built through a cfg-gated constructor) for EVERY pre-state satisfying wf, every observed rate and every clock value, loop-free (complete, no unwinding bound): '
               'target in [100 kbit/s, 200 Mbit/s], floor until an RTT sample exists, lowered only in BackingOff or on entry to Drain, wf inductive; loss latch enters only after ewma > 0.55 held 4 s, clears only < 0.25. '
               'One known finding (re-seed at the floor) is isolated in its own obligation.',
